@@ -32,6 +32,10 @@ def to_real_(v):
 
 def _arith(op, x, y):
     x, y = lift(x), lift(y)
+    if z3.is_bool(x):
+        x = If(x, IntVal(1), IntVal(0))
+    if z3.is_bool(y):
+        y = If(y, IntVal(1), IntVal(0))
     if op == "Div" or z3.is_real(x) != z3.is_real(y):
         x, y = to_real_(x), to_real_(y)
     return {"Add": lambda: x + y, "Sub": lambda: x - y, "Mult": lambda: x * y, "Div": lambda: x / y}[op]()
@@ -94,15 +98,27 @@ class NdContract(Contract):
         return Nd(name or v.name, v.shape if shape is None else shape, kind or v.kind, prov or v.prov, **d)
 
     def _squeeze(self, eng, st, v):
-        dims = []
-        for d in v.shape:
+        dims, kept = [], []
+        for pos, d in enumerate(v.shape):
             unit = same_dim(d, 1)
             if isinstance(unit, bool):
-                if not unit:
-                    dims.append(d)
-            elif not eng.decide(unit, st):
+                keep = not unit
+            else:
+                keep = not eng.decide(unit, st)
+            if keep:
                 dims.append(d)
-        return self._derive(v, shape=tuple(dims), kind="ndarray", prov="ERASED")
+                kept.append(pos)
+        cell = None
+        old = getattr(v, "cell", None)
+        if old is not None:
+            rank = len(v.shape)
+
+            def cell(*ix, old=old, kept=tuple(kept), rank=rank):
+                full = [IntVal(0)] * rank
+                for p_, i_ in zip(kept, ix):
+                    full[p_] = i_
+                return old(*full)
+        return self._derive(v, shape=tuple(dims), kind="ndarray", prov="ERASED", cell=cell)
 
     # ---- hooks
     def on_call(self, eng, st, node, name, recv, args, kwargs):
@@ -218,11 +234,17 @@ class NdContract(Contract):
                 return size_of(base.shape)
             if attr == "values" and base.kind in ("series", "frame"):
                 return self._derive(base, kind="ndarray", prov="ERASED")
+            if attr == "T" and len(base.shape) <= 1:
+                return base
             if attr == "T" and len(base.shape) == 2:
                 return self._derive(base, shape=(base.shape[1], base.shape[0]))
         return NotImplemented
 
     def on_subscript(self, eng, st, node, base, index):
+        if is_nd(base) and len(base.shape) == 2 and isinstance(index, tuple) and len(index) == 2 and isinstance(index[0], Abstract) \
+                and index[0].tag == "slice" and index[0].lo is None and index[0].hi is None and isinstance(index[1], int):
+            c, col = getattr(base, "cell", None), index[1]
+            return Nd(f"{base.name}[:,{col}]", (base.shape[0],), "ndarray", "ERASED", cell=(lambda i: c(i, IntVal(col))) if c else None)
         if is_nd(base) and len(base.shape) == 1 and getattr(base, "cell", None) is not None:
             if isinstance(index, Abstract) and index.tag == "slice" and index.hi is None and index.step is None and isinstance(index.lo, int) and index.lo >= 0:
                 k0 = index.lo
@@ -248,8 +270,19 @@ class NdContract(Contract):
             f = {"Eq": lambda x, y: x == y, "NotEq": lambda x, y: x != y, "Lt": lambda x, y: x < y, "LtE": lambda x, y: x <= y,
                  "Gt": lambda x, y: x > y, "GtE": lambda x, y: x >= y}[op]
             return Nd(f"({a.name}{op}{b.name})", a.shape, "ndarray", "ERASED", cell=lambda i: f(a.cell(i), b.cell(i)))
-        if is_nd(a) and not is_nd(b) and op in ("Eq", "NotEq", "Gt", "Lt", "GtE", "LtE") and not (b is None):
-            return self._derive(a, name=f"({a.name}{op}scalar)", kind="ndarray", prov="ERASED")
+        if is_nd(a) and not is_nd(b) and not isinstance(b, Abstract) and op in ("Eq", "NotEq", "Gt", "Lt", "GtE", "LtE") and not (b is None):
+            ca = getattr(a, "cell", None)
+            cell = None
+            if ca is not None:
+                f = {"Eq": lambda x, y: x == y, "NotEq": lambda x, y: x != y, "Lt": lambda x, y: x < y, "LtE": lambda x, y: x <= y,
+                     "Gt": lambda x, y: x > y, "GtE": lambda x, y: x >= y}[op]
+
+                def cell(*ix):
+                    x, y = lift(ca(*ix)), lift(b)
+                    if z3.is_real(x) != z3.is_real(y):
+                        x, y = to_real_(x), to_real_(y)
+                    return f(x, y)
+            return self._derive(a, name=f"({a.name}{op}scalar)", kind="ndarray", prov="ERASED", cell=cell)
         return NotImplemented
 
     def on_binop(self, eng, st, node, op, a, b):
@@ -272,7 +305,7 @@ class NdContract(Contract):
                 else:
                     raise Unsupported("broadcast of these ranks")
                 cell = _cell_binop(op, a, b, shape)
-                if op == "Div" and getattr(b, "cell", None) is not None:
+                if op == "Div" and getattr(b, "cell", None) is not None and getattr(self, "check_pointwise_division", True):
                     ix = (GI, GJ)[:len(b.shape)]
                     eng.oblige(st, "no_division_by_zero_pointwise", z3.Implies(in_range(b.shape, ix), to_real_(b.cell(*ix)) != 0), "arith", node)
                 return Nd(f"({a.name}{op}{b.name})", shape, "ndarray", "ERASED", binop=(op, a, b), cell=cell)
@@ -280,6 +313,8 @@ class NdContract(Contract):
             other = b if is_nd(a) else a
             vc = getattr(v, "cell", None)
             cell = None
+            if op == "Div" and is_nd(a) and not isinstance(other, Abstract):
+                eng.oblige(st, "no_division_by_zero", to_real_(other) != 0, "arith", node)
             if vc is not None and not isinstance(other, Abstract):
                 o = other
                 cell = (lambda *ix: _arith(op, vc(*ix), o)) if is_nd(a) else (lambda *ix: _arith(op, o, vc(*ix)))
